@@ -804,6 +804,9 @@ pub(crate) fn open_tree<Fd: AsFd, P: AsRef<Path>>(
 ) -> Result<OwnedFd, Error> {
     let dirfd = dirfd.as_fd().hotfix_rustix_fd()?;
     let path = path.as_ref();
+    // The returned mount fd must be close-on-exec, like every other
+    // descriptor we create.
+    let flags = flags | OpenTreeFlags::OPEN_TREE_CLOEXEC;
 
     rustix_mount::open_tree(dirfd, path, flags).map_err(|errno| Error::OpenTree {
         dirfd: dirfd.into(),
